@@ -61,6 +61,9 @@ pub fn instr_to_op<'a>(i: &J, t_void: u32, t_res: &dyn Fn(u64) -> wasmparser::Bl
         "end" => Operator::End,
         "br" => Operator::Br { relative_depth: i["d"].as_u64().unwrap() as u32 },
         "br_if" => Operator::BrIf { relative_depth: i["d"].as_u64().unwrap() as u32 },
+        "bron" => Operator::BrOnNull { relative_depth: i["d"].as_u64().unwrap() as u32 },
+        "rnull" => Operator::RefNull { hty: wasmparser::HeapType::FUNC },
+        "rfunc" => Operator::RefFunc { function_index: 0 },
         "return" => Operator::Return,
         "unreachable" => Operator::Unreachable,
         "throw" => Operator::Throw { tag_index: 0 },
@@ -90,6 +93,9 @@ fn enc_instr(i: &J, f: &mut wasm_encoder::Function) {
         "end" => f.instruction(&I::End),
         "br" => f.instruction(&I::Br(i["d"].as_u64().unwrap() as u32)),
         "br_if" => f.instruction(&I::BrIf(i["d"].as_u64().unwrap() as u32)),
+        "bron" => f.instruction(&I::BrOnNull(i["d"].as_u64().unwrap() as u32)),
+        "rnull" => f.instruction(&I::RefNull(wasm_encoder::HeapType::FUNC)),
+        "rfunc" => f.instruction(&I::RefFunc(0)),
         "br_table" => {
             let ds: Vec<u32> = i["ds"].as_array().unwrap().iter().map(|x| x.as_u64().unwrap() as u32).collect();
             f.instruction(&I::BrTable(ds.into(), i["d"].as_u64().unwrap() as u32))
@@ -121,6 +127,8 @@ pub fn build_module_x(body: &[J], arity: u64, nlocals: u32, imports_only: bool) 
     types.ty().function(vec![], vec![]); // 0
     types.ty().function(vec![], vec![ValType::I32]); // 1
     types.ty().function(vec![], vec![ValType::I32, ValType::I32]); // 2
+    types.ty().function(vec![ValType::I32], vec![ValType::I64]); // 3: aux function 1
+    types.ty().function(vec![ValType::I32], vec![ValType::F32]); // 4: aux function 2
     m.section(&types);
     let mut imps = ImportSection::new();
     for k in 0..N_OP {
@@ -139,6 +147,10 @@ pub fn build_module_x(body: &[J], arity: u64, nlocals: u32, imports_only: bool) 
     if !imports_only {
         let mut funcs = FunctionSection::new();
         funcs.function(arity.min(2) as u32);
+        // two auxiliary local functions behind the one under test, with parameters and different results (their
+        // function-exit wrapper types `[] -> results` are not in the module: see case field aux_exit)
+        funcs.function(3);
+        funcs.function(4);
         m.section(&funcs);
     }
     // tag 0 (no parameters) for `throw`
@@ -148,6 +160,10 @@ pub fn build_module_x(body: &[J], arity: u64, nlocals: u32, imports_only: bool) 
     let mut ex = ExportSection::new();
     ex.export("f", ExportKind::Func, F_LOCAL);
     m.section(&ex);
+    // function 0 is declared (ref.func 0 in the body)
+    let mut elems = ElementSection::new();
+    elems.declared(Elements::Functions(std::borrow::Cow::Borrowed(&[0])));
+    m.section(&elems);
     if imports_only {
         return m.finish();
     }
@@ -158,6 +174,14 @@ pub fn build_module_x(body: &[J], arity: u64, nlocals: u32, imports_only: bool) 
         enc_instr(i, &mut f);
     }
     code.function(&f);
+    let mut a1 = Function::new(vec![]);
+    a1.instruction(&wasm_encoder::Instruction::I64Const(0));
+    a1.instruction(&wasm_encoder::Instruction::End);
+    code.function(&a1);
+    let mut a2 = Function::new(vec![]);
+    a2.instruction(&wasm_encoder::Instruction::F32Const(0.0f32.into()));
+    a2.instruction(&wasm_encoder::Instruction::End);
+    code.function(&a2);
     m.section(&code);
     m.finish()
 }
@@ -194,7 +218,7 @@ pub fn decode_body(bytes: &[u8]) -> Result<(Vec<J>, Vec<String>), String> {
             }
             wasmparser::Payload::CodeSectionEntry(b) => {
                 if seen {
-                    return Err("more than one local function in output".into());
+                    continue; // the auxiliary functions behind the function under test are not decoded
                 }
                 seen = true;
                 for l in b.get_locals_reader().map_err(|e| e.to_string())? {
@@ -238,6 +262,15 @@ pub fn decode_body(bytes: &[u8]) -> Result<(Vec<J>, Vec<String>), String> {
                         Operator::End => json!({"o":"end"}),
                         Operator::Br { relative_depth } => json!({"o":"br","d":relative_depth}),
                         Operator::BrIf { relative_depth } => json!({"o":"br_if","d":relative_depth}),
+                        Operator::BrOnNull { relative_depth } => json!({"o":"bron","d":relative_depth}),
+                        Operator::RefNull { .. } => json!({"o":"rnull"}),
+                        Operator::RefFunc { function_index } => {
+                            if fnames.get(*function_index as usize).map(|n| n == "op0").unwrap_or(false) {
+                                json!({"o":"rfunc"})
+                            } else {
+                                json!({"o":"foreign","txt":format!("ref.func {}", function_index)})
+                            }
+                        }
                         Operator::BrTable { targets } => {
                             let ds: Vec<u32> = targets.targets().map(|t| t.unwrap_or(9999)).collect();
                             json!({"o":"br_table","ds":ds,"d":targets.default()})
@@ -394,6 +427,26 @@ fn inject_one(h: &mut Holder, e: &J) -> Result<(), String> {
         .collect();
     let fid = FunctionID(F_LOCAL);
     let r = guarded(|| {
+        if mode == "clear" {
+            // clear_instr_at(site, what): withdraw what was injected there in that mode
+            let what = mode_of(e["what"].as_str().unwrap_or("")).expect("clear: plain mode");
+            match api.as_str() {
+                "comp" | "comp_at" => {
+                    let comp = h.comp.as_mut().expect("harness: comp api without a component");
+                    let mut it = wirm::iterator::component_iterator::ComponentIterator::new(comp, std::collections::HashMap::new());
+                    it.clear_instr_at(Location::Component { mod_idx: wirm::ir::id::ModuleID(0), func_idx: fid, instr_idx: site.max(0) as usize }, what);
+                }
+                "iter" | "iter_at" => {
+                    let mut it = ModuleIterator::new(h.m(), &vec![]);
+                    it.clear_instr_at(Location::Module { func_idx: fid, instr_idx: site.max(0) as usize }, what);
+                }
+                _ => {
+                    let mut fm = h.m().functions.get_fn_modifier(fid).expect("no function modifier");
+                    fm.clear_instr_at(Location::Module { func_idx: fid, instr_idx: site.max(0) as usize }, what);
+                }
+            }
+            return;
+        }
         match api.as_str() {
             "iter" | "iter_at" => {
                 let mut it = ModuleIterator::new(h.m(), &vec![]);
@@ -582,6 +635,19 @@ pub fn run_case(case: &J, enc2: bool) -> CaseOut {
     }
     if let Some(p) = case["pre"].as_str() {
         ev["pre"] = json!(p);
+    }
+    // function-exit probes on BOTH auxiliary functions: each needs a new wrapper type, and the order in which the
+    // functions are lowered must not depend on anything but the module
+    if case["aux_exit"] == true && !via_replace {
+        for a in 1..=2u32 {
+            let _ = guarded(|| {
+                let mut fm = h.m().functions.get_fn_modifier(FunctionID(F_LOCAL + a)).expect("aux function");
+                fm.func_exit();
+                fm.inject(Operator::Call { function_index: N_OP + N_COND + N_PROBE - 1 });
+                fm.finish_instr();
+            });
+        }
+        ev["aux_exit"] = json!(true);
     }
     let mut plan_out = vec![];
     for e in plan.iter() {
